@@ -8,10 +8,12 @@
    At parser level (NameAddrParam.v): in "<" uri ">;q=" value and "<" uri ">;expires=" digits the
    parameter dispatch receives exactly the value text, so q is the value in thousandths or flagged, and
    expires is the value of the digits saturated at 2^32-1 (C10_q_in_a_value, C10_expires_in_a_value).
-   PARTIAL in one respect: for the CSeq number and the URI port that the accumulator is fed exactly
-   the digits of the reported field is checked by the correspondence run and the number-chunked
-   oracle (status: C08). *)
-From Sipsp Require Import Harness IP4 Numbers FLineSpec UIntSpec QSpec NameAddrSpec NameAddrParam.
+   ParseCSeqVal (CSeqSpec.v, C10_cseq_value_is_its_digits): on *WSP digits 1*WSP method CRLF the
+   number is the value of exactly the digits, rejected above 2^32-1 or with more than 10 digits; the
+   method text and number, and all extents, are those of the text; any offset.
+   PARTIAL in one respect: for the URI port that the accumulator is fed exactly the digits of the
+   reported field is checked by the correspondence run and the number-chunked oracle (status: C08). *)
+From Sipsp Require Import Harness IP4 Numbers FLineSpec UIntSpec QSpec NameAddrSpec NameAddrParam HdrSpec CSeqSpec.
 Theorem C10_uint_header_value_is_its_digits : forall p sp ds d x,
   Forall (fun b => is_sp b = true) sp -> all_digits ds -> ds <> [] -> is_sp d = false ->
   let i := nnat (length p) in
@@ -32,6 +34,24 @@ Theorem C10_content_length_value_is_its_digits : forall p sp ds d x,
         (mkuintb (dec ds) (mkpf (i + nnat (length sp)) (nnat (length ds))) ClFIN 0)
   else exists o s', parse_clen (p ++ text) i uintb0 = Done o ENumTooBig s'.
 Proof. exact clen_value_spec. Qed.
+Theorem C10_cseq_value_is_its_digits : forall (p sp : list byte) d0 (r : list byte) b1 (sp1 : list byte) m0 (m : list byte) d x,
+  spaces sp -> all_digits (d0 :: r) -> spaces (b1 :: sp1) -> tok (m0 :: m) -> is_sp d = false ->
+  let ds := d0 :: r in let ws := b1 :: sp1 in let mt := m0 :: m in
+  let i := nnat (length p) in
+  let a := i + nnat (length sp) in
+  let c := a + nnat (length ds) + nnat (length ws) in
+  let e := c + nnat (length mt) in
+  let text := sp ++ ds ++ ws ++ mt ++ CR :: LF :: d :: x in
+  if (dec ds <=? MaxU32) && (nnat (length ds) <=? MaxCSeqNValueSize) then
+    parse_cseq (p ++ text) i cseq0
+    = Done (e + 2) EOk (mkcseq (dec ds) (get_method_no mt) (mkpf a (nnat (length ds))) (mkpf c (nnat (length mt))) (mkpf a (e - a)) CsFIN 0)
+  else exists o s', parse_cseq (p ++ text) i cseq0 = Done o ENumTooBig s'.
+Proof. exact cseq_value_spec. Qed.
+(* "314159 INVITE" *)
+Example C10_cseq_example :
+  parse_cseq [51;49;52;49;53;57;32;73;78;86;73;84;69;13;10;88] 0 cseq0
+  = Done 15 EOk (mkcseq 314159 (get_method_no [73;78;86;73;84;69]) (mkpf 0 6) (mkpf 7 6) (mkpf 0 13) CsFIN 0).
+Proof. vm_compute. reflexivity. Qed.
 Theorem C10_uint32_accumulation_exact_or_rejected : forall ds v, all_digits ds -> v <= MaxU32 ->
   acc32_all v ds = if dec_from v ds <=? MaxU32 then Some (dec_from v ds) else None.
 Proof. exact acc32_all_exact. Qed.
